@@ -156,6 +156,7 @@ type c07Probe struct {
 	tillDepth      float64
 	tillTyp        int
 	harvestDay     bool
+	rootMax        int // deepest rooting depth seen during the day (layers)
 	// sub-step
 	pesum, aufna, nfixsum float64
 	nontriv               bool
@@ -179,6 +180,7 @@ func (l *c07Probe) probe() *hermes.VerifProbe {
 			l.tillDue = zeit == g.EINTE[g.NTIL.Index+1]+1
 			l.tillDepth, l.tillTyp = g.EINT[g.NTIL.Index], g.TILART[g.NTIL.Index]
 			l.harvestDay = zeit == g.ERNTE[g.AKF.Index]
+			l.rootMax = g.WURZ
 			l.nontriv = l.fertDue || l.tillDue
 			l.dayPesum, l.dayAufna, l.dayNfix = g.PESUM, g.AUFNASUM, g.NFIXSUM
 			l.cropDay = g.SAAT[g.AKF.Index] > 0 && zeit > g.SAAT[g.AKF.Index] && !l.harvestDay
@@ -188,6 +190,9 @@ func (l *c07Probe) probe() *hermes.VerifProbe {
 			l.bnSeen = false
 		},
 		BeforeNitro: func(g *hermes.GlobalVarsMain, zeit, subd int) {
+			if g.WURZ > l.rootMax {
+				l.rootMax = g.WURZ
+			}
 			if subd == 1 {
 				l.bnSeen, l.bnPesum, l.bnAufna, l.bnAkf = true, g.PESUM, g.AUFNASUM, g.AKF.Index
 				l.fixToday = g.NFIXSUM - l.nfixsum // (the crop model runs between the ET routine and here)
@@ -264,6 +269,28 @@ func (l *c07Probe) probe() *hermes.VerifProbe {
 			}
 			if g.NH4UMS > g.NH4Sum+relTol(g.NH4Sum) {
 				l.c.Violate("nitrified>applied", fmt.Sprintf("%s day %d: nitrified ammonium %.10g exceeds applied %.10g", l.label, zeit, g.NH4UMS, g.NH4Sum), nil)
+			}
+			// below the rooted depth (dead roots and the root residues of a harvest go to rooted layers only) and below the
+			// depth a tillage mixes, nothing is added to the organic pools and nothing mineralises
+			if g.WURZ > l.rootMax {
+				l.rootMax = g.WURZ
+			}
+			below := max(l.rootMax, (g.IZM+9)/10) // (the mineralisation zone: IZM cm)
+			if l.tillDue && l.tillDepth > 0 {
+				below = max(below, int(math.Ceil(l.tillDepth/10)))
+			}
+			if p := os.Getenv("C07_DEBUG"); p != "" && l.harvestDay {
+				if f, err := os.OpenFile(p, os.O_APPEND|os.O_CREATE|os.O_WRONLY, 0o644); err == nil {
+					fmt.Fprintf(f, "%s day %d harvest rootMax %d wurz %d N %d below %d dNAOS %v\n", l.label, zeit, l.rootMax, g.WURZ, g.N, below, func() []float64 { var d []float64; for z := 0; z < g.N; z++ { d = append(d, g.NAOS[z]-l.naos[z]) }; return d }())
+					f.Close()
+				}
+			}
+			for z := below; z < g.N; z++ {
+				if g.NAOS[z] != l.naos[z] || g.NFOS[z] != l.nfos[z] {
+					l.c.Violate("organic pool changed below the rooted and tilled depth", fmt.Sprintf("%s day %d layer %d: slow pool %.10g -> %.10g, fast pool %.10g -> %.10g kg N/ha, but the deepest rooting depth of the day is %d layers (harvest day: %v) and no tillage reaches the layer",
+						l.label, zeit, z+1, l.naos[z], g.NAOS[z], l.nfos[z], g.NFOS[z], l.rootMax, l.harvestDay), nil)
+					break
+				}
 			}
 			// organic pools + mineralised counters: only inputs may change the sum
 			var inA, inF [21]float64
